@@ -68,6 +68,28 @@ def warm_phase(side, warm0):
     return warm, closed, raw
 
 
+def long_round_trip(ctx, rng, q):
+    """a long run on ONE anonymizer (tens of thousands of distinct addresses), then undo of early and late images by a FRESH anonymizer with the same
+    salt and options: whatever the first instance did to its tables on the way, the second must get every original back"""
+    n = 0
+    for N, B in ((30000 if q else 90000, 8),):
+        c = ipgen.long_history(rng, N, B=B, pfx="D")
+        ops = ipgen.ops_of(c)[:-200]
+        res = vlib.run_impl([c[:-1] + [" ".join(ops)]])[0].split(" ")
+        if len(res) != len(ops) or not all(r.isdigit() for r in res):
+            ctx.fail("anonymize raised in a long run", c[:-1] + ["<%d requests>" % len(ops)], " ".join(res)[:200], label="impl-long")
+            continue
+        ks = list(range(0, 300)) + list(range(len(ops) - 300, len(ops)))
+        back = vlib.run_impl([c[:-1] + [" ".join("d" + res[k] for k in ks)]])[0].split(" ")
+        for k, b in zip(ks, back):
+            n += 1
+            if b != ops[k][1:]:
+                ctx.fail("address %s was anonymized to %s as request %d of a long run; a fresh anonymizer (same salt and options) undoes that to %s" % (ops[k][1:], res[k], k, b),
+                         c[:-1] + ["<%d distinct addresses>" % len(ops)], b, ops[k][1:], label="impl-long")
+                break
+    return n
+
+
 def run(ctx):
     rng, q = ctx.rng, ctx.quick()
     fwd = ipgen.small_cases(rng, 4 if q else 25)
@@ -179,7 +201,7 @@ def run(ctx):
             ctx.fail("--undo of the anonymized file does not restore the (canonicalised) input", {"line": lines[k] if k < len(lines) else None, "options": opts},
                      got[k] if k < len(got) else None, expl[k] if k < len(expl) else None, label="impl-file")
     ctx.search_stats_file = {"file_roundtrips": len(froms)}
-    n_files = file_round_trips(ctx, rng, q)
+    n_files = file_round_trips(ctx, rng, q) + long_round_trip(ctx, rng, q)
     ctx.evaluations = n_files + 2 * (len(fwd) + len(warm0)) + 2 * len(froms)
     ctx.distinct_nontrivial = nt
     ctx.search_stats = {"cold_undo_cases": len(fwd), "warm_cases": len(warm0), "addresses_undone_cold_with_image_ne_original": nt, "file_level_main_roundtrips": len(froms)}
